@@ -301,7 +301,7 @@ def known_findings():
     if os.path.exists(p):
         for line in open(p):
             line = line.strip()
-            if line and not line.startswith("#"):
+            if line.startswith("{"):
                 out.append(json.loads(line))
     return out
 
